@@ -51,6 +51,23 @@ type tsgen struct {
 }
 
 func (g *tsgen) cnt(k string) { g.kinds[k]++ }
+
+// expressions of the shared generator are validated as JavaScript before they are
+// placed (they may end up inside erased, TypeScript-only regions, where an invalid
+// leaf would make only the typed side fail)
+func (g *tsgen) validJS(gen func() string) string {
+	for i := 0; i < 20; i++ {
+		e := gen()
+		if _, err := transformText("x = ("+e+");", api.TransformOptions{Loader: api.LoaderJS, LogLevel: api.LogLevelSilent}); err == "" {
+			return e
+		}
+		g.cnt("jsgen-invalid-leaf-regenerated")
+	}
+	return "0"
+}
+func (g *tsgen) jsA(d int) string { return g.validJS(func() string { return g.js.ExprAssign(d) }) }
+func (g *tsgen) jsS(d int) string { return g.validJS(func() string { return g.js.ExprShift(d) }) }
+func (g *tsgen) jsP(d int) string { return g.validJS(func() string { return g.js.ExprPrefix(d) }) }
 func (g *tsgen) fresh(p string) string {
 	g.n++
 	return fmt.Sprintf("%s%d", p, g.n)
@@ -118,7 +135,7 @@ func (g *tsgen) colonType() dp {
 func (g *tsgen) expr(d int) dp {
 	r := g.r
 	if d <= 0 {
-		return dcat(g.js.ExprAssign(1))
+		return dcat(g.jsA(1))
 	}
 	switch r.Intn(24) {
 	case 0, 1:
@@ -225,7 +242,7 @@ func (g *tsgen) expr(d int) dp {
 			return dcat("(", x, tsOnly("!"), " += ", g.expr(d-1), ")")
 		}
 	default:
-		return dcat(g.js.ExprAssign(r.Range(1, 3)))
+		return dcat(g.jsA(r.Range(1, 3)))
 	}
 }
 
@@ -234,13 +251,13 @@ func (g *tsgen) operand(d int) dp {
 	if d > 0 && g.r.Chance(40) {
 		return g.expr(d)
 	}
-	return dcat(g.js.ExprShift(g.r.Range(1, 2)))
+	return dcat(g.jsS(g.r.Range(1, 2)))
 }
 func (g *tsgen) unary(d int) dp {
 	if d > 0 && g.r.Chance(30) {
 		return g.expr(d)
 	}
-	return dcat(g.js.ExprPrefix(g.r.Range(1, 2)))
+	return dcat(g.jsP(g.r.Range(1, 2)))
 }
 func (g *tsgen) callee(d int) dp {
 	r := g.r
@@ -250,7 +267,7 @@ func (g *tsgen) callee(d int) dp {
 	case 1:
 		return dcat(g.fresh("o"), ".", g.fresh("m"))
 	case 2:
-		return dcat(g.fresh("o"), "[", g.js.ExprAssign(1), "]")
+		return dcat(g.fresh("o"), "[", g.jsA(1), "]")
 	default:
 		return dcat("(", g.expr(d), ")")
 	}
@@ -265,7 +282,10 @@ func (g *tsgen) optRet() dp {
 }
 
 // params: parenthesised parameter list with TypeScript decorations
-func (g *tsgen) params(d int, allowThis bool) dp {
+func (g *tsgen) params(d int, allowThis bool) dp { return g.paramsX(d, allowThis, false) }
+
+// sigOnly: overload / ambient signatures take no parameter initialisers
+func (g *tsgen) paramsX(d int, allowThis bool, sigOnly bool) dp {
 	r := g.r
 	n := r.Range(0, 3)
 	var parts []interface{}
@@ -294,12 +314,16 @@ func (g *tsgen) params(d int, allowThis bool) dp {
 			g.cnt("optional-param")
 			parts = append(parts, name, tsOnly("?"), g.colonType())
 		case 1:
+			if sigOnly {
+				parts = append(parts, name, tsOnly("?"), g.colonType())
+				break
+			}
 			g.cnt("default-param")
-			parts = append(parts, name, g.colonType(), " = ", g.js.ExprAssign(1))
+			parts = append(parts, name, g.colonType(), " = ", g.jsA(1))
 		case 2:
 			g.cnt("destructured-param")
 			parts = append(parts, "{ "+name+", k: [q"+name+"] }", g.colonType())
-			if r.Bool() {
+			if !sigOnly && r.Bool() {
 				parts = append(parts, " = { k: [] }")
 			}
 		case 3:
@@ -371,7 +395,7 @@ func (g *tsgen) operandParen(d int) dp {
 	if g.r.Chance(50) {
 		return dcat("(", g.expr(d), ")")
 	}
-	return dcat("(", g.js.ExprAssign(g.r.Range(1, 2)), ")")
+	return dcat("(", g.jsA(g.r.Range(1, 2)), ")")
 }
 
 // an expression statement must not start with "{", "function", "class", "let", "async"
@@ -419,7 +443,7 @@ func (g *tsgen) funcDecl(d int) dp {
 	if r.Chance(35) {
 		g.cnt("overload-signatures")
 		for k := r.Range(1, 2); k > 0; k-- {
-			o := dcat(exp, "function ", name, g.optTypeParams(), g.params(0, true), g.optRet(), r.Pick([]string{";", "", ";"}), "\n")
+			o := dcat(exp, "function ", name, g.optTypeParams(), g.paramsX(0, true, true), g.optRet(), r.Pick([]string{";", "", ";"}), "\n")
 			parts = append(parts, tsOnly(o.ts))
 		}
 	}
@@ -507,7 +531,7 @@ func (g *tsgen) class(d int, isExpr bool) dp {
 		switch r.Intn(16) {
 		case 0, 1:
 			g.cnt("field")
-			parts = append(parts, g.memberMods(true), m, g.colonType(), " = ", g.js.ExprAssign(1), ";\n")
+			parts = append(parts, g.memberMods(true), m, g.colonType(), " = ", g.jsA(1), ";\n")
 		case 2:
 			g.cnt("field-no-init")
 			parts = append(parts, g.memberMods(true), m)
@@ -559,13 +583,13 @@ func (g *tsgen) class(d int, isExpr bool) dp {
 			parts = append(parts, g.methodMods(false), "set ", m, "(v", g.colonType(), ") {}\n")
 		case 10:
 			g.cnt("private-name-member")
-			parts = append(parts, "#", m, g.colonType(), " = ", g.js.ExprAssign(1), ";\n", "#", m, "f", g.optTypeParams(), g.params(0, false), g.optRet(), " { return this.#", m, tsOnly("!"), "; }\n")
+			parts = append(parts, "#", m, g.colonType(), " = ", g.jsA(1), ";\n", "#", m, "f", g.optTypeParams(), g.params(0, false), g.optRet(), " { return this.#", m, tsOnly("!"), "; }\n")
 		case 11:
 			g.cnt("computed-member")
-			parts = append(parts, g.memberMods(true), "[", g.js.ExprAssign(1), "]", g.colonType(), " = ", g.js.ExprAssign(1), ";\n")
+			parts = append(parts, g.memberMods(true), "[", g.jsA(1), "]", g.colonType(), " = ", g.jsA(1), ";\n")
 		case 12:
 			g.cnt("string-key-member")
-			parts = append(parts, g.memberMods(true), r.Pick([]string{`"quoted key"`, `'k'`, `42`}), g.colonType(), " = ", g.js.ExprAssign(1), ";\n")
+			parts = append(parts, g.memberMods(true), r.Pick([]string{`"quoted key"`, `'k'`, `42`}), g.colonType(), " = ", g.jsA(1), ";\n")
 		case 13:
 			g.cnt("constructor")
 			// no parameter properties here (they are a run-time construct: stream 2)
@@ -585,7 +609,7 @@ func (g *tsgen) class(d int, isExpr bool) dp {
 			nm := r.Pick([]string{"declare", "abstract", "readonly", "public", "private", "static", "override", "get", "set", "async", "type", "accessor"})
 			switch r.Intn(3) {
 			case 0:
-				parts = append(parts, nm, g.colonType(), " = ", g.js.ExprAssign(1), ";\n")
+				parts = append(parts, nm, g.colonType(), " = ", g.jsA(1), ";\n")
 			case 1:
 				parts = append(parts, nm, g.optTypeParams(), "()", g.optRet(), " {}\n")
 			default:
@@ -637,7 +661,7 @@ func (g *tsgen) typeOnlyStmt(d int) dp {
 		return dcat(tsOnly(exp + "declare " + r.Pick([]string{"const", "let", "var"}) + " " + g.fresh("dv") + ": " + g.ty() + ";\n"))
 	case 7:
 		g.cnt("declare-function")
-		o := dcat("declare function ", g.fresh("df"), g.optTypeParams(), g.params(0, false), g.optRet(), ";\n")
+		o := dcat("declare function ", g.fresh("df"), g.optTypeParams(), g.paramsX(0, false, true), g.optRet(), ";\n")
 		return dcat(tsOnly(exp + o.ts))
 	case 8:
 		g.cnt("declare-class")
@@ -761,9 +785,9 @@ func (g *tsgen) stmt(d int) dp {
 		id := r.Pick([]string{"type", "declare", "abstract", "namespace", "module", "global", "as", "satisfies", "readonly", "keyof", "infer", "is", "asserts", "override", "enum1", "unique", "out", "accessor", "async", "of"})
 		switch r.Intn(4) {
 		case 0:
-			return dcat(id, " = ", g.js.ExprAssign(1), ";\n")
+			return dcat(id, " = ", g.jsA(1), ";\n")
 		case 1:
-			return dcat(id, "\n(", g.js.ExprAssign(1), ");\n")
+			return dcat(id, "\n(", g.jsA(1), ");\n")
 		case 2:
 			return dcat("var ", id, " = ", id, " + 1, o", id, " = { ", id, ", ", id, ": 1 }.", id, ";\n")
 		default:
